@@ -201,12 +201,12 @@ Proof.
     apply LK_set_l; [exact H|eapply mtx_sort; eauto].
   - cbn [fst]. apply LK_set_l; [exact H|apply mtx_lock].
   - unfold equal. cbv zeta.
-    assert (G : forall b, LK (tset (tset T u (s_lock (T u))) t (s_lock (T t))) L /\ b = b).
-    { intros b. split; [|reflexivity]. apply LK_set_l; [apply LK_set_l; [exact H|apply mtx_lock]|].
-      unfold tset at 2. destruct (Nat.eqb t u); apply mtx_lock. }
+    assert (G : LK (tset (tset T u (s_lock (T u))) t (s_lock (T t))) L).
+    { apply LK_set_l; [apply LK_set_l; [exact H|apply mtx_lock]|].
+      unfold tset. destruct (Nat.eqb_spec t u); [subst; rewrite !mtx_lock; reflexivity|apply mtx_lock]. }
     destruct (negb (h_len (hm (s_lock (T t))) =? h_len (hm (s_lock (T u)))) || negb (Bool.eqb (is_ordered (s_lock (T t))) (is_ordered (s_lock (T u)))));
-      [exact (proj1 (G true))|].
-    destruct (s_list (s_lock (T t))), (s_list (s_lock (T u))); exact (proj1 (G true)).
+      [exact G|].
+    destruct (s_list (s_lock (T t))), (s_list (s_lock (T u))); exact G.
   - unfold iterate. destruct (s_list (s_lock (T u))).
     + cbn [fst]. apply LK_set_l.
       * apply LK_set_l; [exact H|apply mtx_lock].
@@ -222,12 +222,12 @@ Qed.
 
 Ltac agree_refl := first [reflexivity | apply res_agree_refl | (split; [reflexivity|intros; reflexivity])].
 
-Lemma step_sim T R o :
-  TR T R ->
-  TR (fst (step T o)) (fst (rstep R o)) /\
-  res_agree (r_ordered (fst (rstep R o) (target o))) (snd (step T o)) (snd (rstep R o)).
+Lemma step_sim T R L o :
+  TR T R -> LK T L ->
+  TR (fst (step T o)) (fst (rstep R L o)) /\
+  res_agree (r_ordered (fst (rstep R L o) (target o))) (snd (step T o)) (snd (rstep R L o)).
 Proof.
-  intros H. destruct o; cbn [step rstep target].
+  intros H HL. destruct o; cbn [step rstep target].
   - (* Add *) split; [apply TR_set; auto; apply abs_add, H|agree_refl].
   - (* AddCheck *)
     pose proof (abs_add _ _ v (H t)) as [A E].
@@ -254,6 +254,14 @@ Proof.
     destruct (order (T t)) as [s p], (r_order (R t)) as [r p']. simpl in *. subst.
     split; [apply TR_set; auto|agree_refl].
   - (* Sync *) split; [apply TR_set_l; auto; apply abs_synchronize, H|agree_refl].
+  - (* WithLock *)
+    pose proof (abs_with_lock _ _ l (H t)) as A. unfold with_lock in *. rewrite <- (HL t).
+    destruct (Z.eqb l 0); cbn [fst snd] in *; [split; [apply TR_set_l; auto|agree_refl]|].
+    destruct (s_mtx (T t)) as [c|]; cbn [mtx_set fst snd negb] in *.
+    + split; [apply TR_set_l; auto|]. destruct (Z.eqb c l); agree_refl.
+    + split; [apply TR_set_l; auto|agree_refl].
+  - (* LockProbe *)
+    cbn [fst snd]. split; [apply TR_set_l; auto; apply abs_lock, H|]. rewrite mtx_lock, (HL t). agree_refl.
   - (* SortQuick *)
     pose proof (abs_sort (lt_of k) choice _ _ (H t)) as A.
     destruct (sort (lt_of k) choice (T t)) as [s|], (r_sort (lt_of k) choice (R t)) as [r|]; try contradiction; simpl.
@@ -300,34 +308,40 @@ Lemma run_cons T o ops :
   let '(T2, n, it) := observe T1 (target o) in (r, n, it) :: run T2 ops.
 Proof. reflexivity. Qed.
 
-Lemma rrun_cons R o ops :
-  rrun R (o :: ops) =
-  let '(R1, r) := rstep R o in
-  (r, r_len (R1 (target o)), r_elems (R1 (target o)), r_ordered (R1 (target o))) :: rrun R1 ops.
+Lemma rrun_cons R L o ops :
+  rrun R L (o :: ops) =
+  let '(R1, r) := rstep R L o in
+  (r, r_len (R1 (target o)), r_elems (R1 (target o)), r_ordered (R1 (target o))) :: rrun R1 (lstep L o) ops.
 Proof. reflexivity. Qed.
 
-Theorem run_refines ops : forall T R, TR T R -> Forall2 obs_agree (run T ops) (rrun R ops).
+Lemma observe_lock T L t : LK T L -> LK (fst (fst (observe T t))) L.
+Proof. intros H. unfold observe. cbn [fst]. apply LK_set_l; [exact H|apply mtx_lock]. Qed.
+
+Theorem run_refines ops : forall T R L, TR T R -> LK T L -> Forall2 obs_agree (run T ops) (rrun R L ops).
 Proof.
-  induction ops as [|o ops IH]; intros T R H; [constructor|].
+  induction ops as [|o ops IH]; intros T R L H HL; [constructor|].
   rewrite run_cons, rrun_cons.
-  pose proof (step_sim T R o H) as [H1 Ag].
-  destruct (step T o) as [T1 a], (rstep R o) as [R1 b]. cbn [fst snd] in H1, Ag.
-  pose proof (observe_sim T1 R1 (target o) H1) as Ob.
-  destruct (observe T1 (target o)) as [[T2 n] it]. destruct Ob as (H2 & En & Es).
-  constructor; [|apply IH, H2]. unfold obs_agree. auto.
+  pose proof (step_sim T R L o H HL) as [H1 Ag]. pose proof (step_lock T L o HL) as HL1.
+  destruct (step T o) as [T1 a], (rstep R L o) as [R1 b]. cbn [fst snd] in H1, Ag, HL1.
+  pose proof (observe_sim T1 R1 (target o) H1) as Ob. pose proof (observe_lock T1 _ (target o) HL1) as HL2.
+  destruct (observe T1 (target o)) as [[T2 n] it]. destruct Ob as (H2 & En & Es). cbn [fst] in HL2.
+  constructor; [|apply IH; [exact H2|exact HL2]]. unfold obs_agree. auto.
 Qed.
 
 Lemma TR0 : TR tbl0 rtbl0.
 Proof. intros i. exact abs_empty. Qed.
 
-Theorem refines_from_empty ops : Forall2 obs_agree (run tbl0 ops) (rrun rtbl0 ops).
-Proof. apply run_refines, TR0. Qed.
+Lemma LK0 : LK tbl0 ltbl0.
+Proof. intros i. reflexivity. Qed.
+
+Theorem refines_from_empty ops : Forall2 obs_agree (run tbl0 ops) (rrun rtbl0 ltbl0 ops).
+Proof. apply run_refines; [apply TR0|apply LK0]. Qed.
 
 (* ------------------------------------------------------------------ invariant preservation *)
 Theorem set_inv_step T o : (forall i, SetInv (T i)) -> forall i, SetInv (fst (step T o) i).
 Proof.
   intros H i. assert (TR T (fun j => abs_of (T j))) as HT by (intros j; apply abs_abs_of, H).
-  destruct (step_sim T _ o HT) as [H1 _]. exact (proj1 (H1 i)).
+  destruct (step_sim T _ (fun j => s_mtx (T j)) o HT (fun j => eq_refl)) as [H1 _]. exact (proj1 (H1 i)).
 Qed.
 
 (* the table after a run (every step followed by the harness's Len/Iterator observation) *)
@@ -350,6 +364,40 @@ Qed.
 
 Theorem set_inv_reachable ops i : SetInv (exec tbl0 ops i).
 Proof. apply set_inv_exec. intros j. exact (proj1 abs_empty). Qed.
+
+(* ------------------------------------------------------------------ the mutex slot is write-once *)
+(* one step never replaces an installed mutex, except by discarding the whole set (New) *)
+Theorem mutex_write_once_step T o i l :
+  s_mtx (T i) = Some l -> (forall ord l', o <> OReset i ord l') -> s_mtx (fst (step T o) i) = Some l.
+Proof.
+  intros E NR. rewrite (step_lock T (fun j => s_mtx (T j)) o (fun j => eq_refl) i).
+  destruct o; cbn [lstep]; try exact E.
+  - unfold ltset. destruct (Nat.eqb i t) eqn:Q; [|exact E]. apply Nat.eqb_eq in Q. subst. rewrite E. reflexivity.
+  - destruct (Z.eqb l0 0); [exact E|]. unfold ltset. destruct (Nat.eqb i t) eqn:Q; [|exact E].
+    apply Nat.eqb_eq in Q. subst. rewrite E. reflexivity.
+  - unfold ltset. destruct (Nat.eqb i t) eqn:Q; [|exact E]. apply Nat.eqb_eq in Q. subst.
+    exfalso. eapply NR. reflexivity.
+Qed.
+
+(* the lock table after an operation list *)
+Fixpoint lrun (L : ltbl) (ops : list op) : ltbl :=
+  match ops with [] => L | o :: ops' => lrun (lstep L o) ops' end.
+
+Theorem mutex_write_once_exec ops : forall T L, LK T L -> LK (exec T ops) (lrun L ops).
+Proof.
+  induction ops as [|o ops IH]; intros T L H; simpl; [exact H|].
+  apply IH. apply observe_lock. apply step_lock, H.
+Qed.
+
+(* after any operation list the set's mutex is the first one installed since the set was created *)
+Theorem mutex_first_installed ops i : s_mtx (exec tbl0 ops i) = lrun ltbl0 ops i.
+Proof. apply (mutex_write_once_exec ops tbl0 ltbl0 LK0). Qed.
+
+Example mutex_write_once_example :
+  s_mtx (exec tbl0 [OWithLock 0 7; OSync 0 (-1); OWithLock 0 8; OWithLock 0 7; OAdd 0 1; OSync 0 (-2)] 0%nat) = Some 7 /\
+  map (fun o : obs => fst (fst o)) (run tbl0 [OWithLock 0 7; OSync 0 (-1); OWithLock 0 8; OWithLock 0 7; OWithLock 0 0; OLockProbe 0])
+  = [RUnit; RUnit; RPanic; RUnit; RPanic; RLen 7].
+Proof. vm_compute. split; reflexivity. Qed.
 
 (* ------------------------------------------------------------------ Equal iff *)
 Definition members (s : set) : list Z := h_keys (hm s).
